@@ -115,6 +115,8 @@ pub struct Sh {
     pub log: Vec<Value>,
     pub progress: u64,
     pub split_seed: u64,
+    /// the seed as given (split_seed itself advances with every line)
+    pub split_seed0: u64,
     // server
     pub mode: Mode,
     pub pend: Vec<String>,
@@ -141,6 +143,7 @@ impl Sh {
             log: vec![],
             progress: 0,
             split_seed,
+            split_seed0: split_seed,
             mode: Mode::Ready,
             pend: vec![],
             inline: vec![],
@@ -479,7 +482,12 @@ impl AsyncRead for MockIo {
         if s.rerr {
             s.progress += 1;
             s.log.push(json!({"e": "read_err"}));
-            return Poll::Ready(Err(io::Error::new(io::ErrorKind::ConnectionReset, "injected read error")));
+            // (the kind of a transport error is the transport's business: every kind is a failure that is not a clean close;
+            //  Interrupted / WouldBlock are left out - retrying those would be legitimate)
+            const KINDS: [io::ErrorKind; 6] = [io::ErrorKind::ConnectionReset, io::ErrorKind::ConnectionAborted, io::ErrorKind::BrokenPipe,
+                                               io::ErrorKind::TimedOut, io::ErrorKind::Other, io::ErrorKind::NotConnected];
+            let k = KINDS[((s.split_seed0 >> 3) % 6) as usize];
+            return Poll::Ready(Err(io::Error::new(k, "injected read error")));
         }
         if !s.readable.is_empty() {
             let mut n = s.readable.len().min(buf.remaining());
@@ -512,7 +520,10 @@ impl AsyncWrite for MockIo {
         s.progress += 1;
         if s.werr {
             s.log.push(json!({"e": "write_err"}));
-            return Poll::Ready(Err(io::Error::new(io::ErrorKind::BrokenPipe, "injected write error")));
+            const KINDS: [io::ErrorKind; 5] = [io::ErrorKind::BrokenPipe, io::ErrorKind::ConnectionReset, io::ErrorKind::ConnectionAborted,
+                                               io::ErrorKind::Other, io::ErrorKind::TimedOut];
+            let k = KINDS[((s.split_seed0 >> 7) % 5) as usize];
+            return Poll::Ready(Err(io::Error::new(k, "injected write error")));
         }
         // a transport may accept fewer bytes than offered (short write)
         let b = if s.max_write > 0 && b.len() > s.max_write { &b[..s.max_write] } else { b };
